@@ -84,6 +84,11 @@ Proof. intros z x. split; [apply dec_Z_number|apply float_str_number]. Qed.
 Theorem C17_no_duplicates_no_loss : forall j, has_dup_keys j = false -> norm false j = norm true j.
 Proof. exact norm_no_duplicates. Qed.
 
+(* a whole float of any magnitude (digits of its shortest representation, then zeros) is a JSON number *)
+Theorem C17_whole_floats_wellformed : forall neg mant zeros,
+  fw_ok mant = true -> is_json_number (float_str (FW neg mant zeros)) = true.
+Proof. exact float_whole_number. Qed.
+
 (* ---- witnesses: each known class is a real failure of the code as it is ---- *)
 
 Definition w_store (target : sel) (data : list datum) : storev :=
